@@ -86,7 +86,7 @@ func vpLBOvIDs(members []*vpLBOvFake) string {
 
 func vpLBOverlapProperty(t *rapid.T) {
 	n := rapid.IntRange(1, 6).Draw(t, "clients") // LBClient.Clients must not be empty (documented sanity check)
-	loads := rapid.Permutation([]int{0, 1, 2, 3, 4, 5, 6, 7, 8, 9}).Draw(t, "loads") // distinct loads: no ties to break
+	loads := rapid.Permutation([]int{0, 100, 200, 300, 400, 500, 600, 700, 800, 900}).Draw(t, "loads") // distinct loads: no ties to break
 	var members []*vpLBOvFake
 	cc := &LBClient{}
 	nextID := 0
@@ -113,6 +113,72 @@ func vpLBOverlapProperty(t *rapid.T) {
 		callers := rapid.IntRange(1, 3).Draw(t, "callers")
 		api := rapid.IntRange(0, 2).Draw(t, "api")
 		before := append([]*vpLBOvFake(nil), members...)
+		if !op.Add && rapid.IntRange(0, 3).Draw(t, "addInsideRemove") == 0 {
+			// a membership change overlapping a membership change: AddClient is called while the RemoveClients
+			// callback (user code) is running; neither update may be lost
+			f := newFake(rapid.SampledFrom([]int{1, 150, 950}).Draw(t, "newLoad") + nextID) // unique: the other loads are multiples of 100; with 1+id the added client is the least loaded one
+			drop := map[BalancingClient]bool{}
+			var after []*vpLBOvFake
+			for i, m := range before {
+				if op.Mask&(1<<uint(i)) != 0 {
+					drop[m] = true
+				} else {
+					after = append(after, m)
+				}
+			}
+			after = append(after, f)
+			added := make(chan int, 1)
+			started := false
+			cc.Do(&Request{}, &Response{}) //nolint:errcheck // (initialises the client list)
+			ret := cc.RemoveClients(func(bc BalancingClient) bool {
+				if !started {
+					started = true
+					go func() { added <- cc.AddClient(f) }()
+					select { // give the AddClient the chance to run if nothing makes it wait
+					case v := <-added:
+						added <- v
+					case <-time.After(vpLBOvPark):
+					}
+				}
+				return drop[bc]
+			})
+			var addRet int
+			if started {
+				select {
+				case addRet = <-added:
+				case <-time.After(vpLBOvMax):
+					t.Fatalf("AddClient started inside a RemoveClients callback did not return within %v", vpLBOvMax)
+				}
+			} else {
+				addRet = cc.AddClient(f) // no member to call the callback for
+			}
+			log = append(log, fmt.Sprintf("step %d: members %s, RemoveClients(mask %d) with AddClient(%d load %d) inside its callback -> RemoveClients=%d AddClient=%d, want members %s", s, vpLBOvIDs(before), op.Mask, f.id, f.pending, ret, addRet, vpLBOvIDs(after)))
+			total := cc.RemoveClients(func(BalancingClient) bool { return false })
+			if total != len(after) {
+				t.Fatalf("after RemoveClients and an AddClient made during its callback the balancer has %d clients, want %d: an update was lost\n%s", total, len(after), strings.Join(log, "\n"))
+			}
+			req, resp := AcquireRequest(), AcquireResponse()
+			req.SetRequestURI("http://lb.vp/")
+			err := cc.Do(req, resp)
+			var id int
+			if err == nil {
+				fmt.Sscanf(string(resp.Body()), "fake-%d", &id) //nolint:errcheck
+			}
+			ReleaseRequest(req)
+			ReleaseResponse(resp)
+			okIDs := vpLBOvMin(after)
+			served := false
+			for _, x := range okIDs {
+				served = served || x == id
+			}
+			if err != nil || !served {
+				t.Fatalf("the call after the two membership changes returned err=%v client=%d; least loaded member: %v\n%s", err, id, okIDs, strings.Join(log, "\n"))
+			}
+			members = after
+			shrunk++
+			overlapped++
+			continue
+		}
 		// park the scan at one of the current members (if any)
 		var parkAt *vpLBOvFake
 		if len(members) > 0 {
